@@ -58,3 +58,91 @@ def conf_basic(seed):
 
 
 PROFILES["conf_basic"] = conf_basic
+
+
+HOOK_NAMES = ["before_start", "after_start", "before_spawn", "after_spawn", "before_stop", "after_stop",
+              "before_signal", "after_signal", "before_reap", "after_reap"]
+
+
+def conf_full(seed, knobs=None):
+    """Conformance profile with everything Core models: hooks, spawn faults, children, probes, deaths placed
+    at kernel-call boundaries, requests between two callbacks, daemon signals, quit."""
+    import random
+    k = dict(hooks=0.4, faults=0.2, fork=0.2, probe=0.15, kdeath=0.3, partial=0.2, dsig=0.1, quit=0.05,
+             sch=0.3, steps=14)
+    k.update(knobs or {})
+    rng = random.Random(seed)
+    nw = rng.choice([1, 1, 2, 2, 3])
+    ws = []
+    for i in range(nw):
+        w = {"name": "w%d" % (i + 1), "np": rng.choice([0, 1, 1, 2, 2, 3]),
+             "G": rng.choice([0.0, 0.1, 0.2, 0.3]), "W": rng.choice([0.0, 0.0, 0.1, 0.2]),
+             "singleton": False, "respawn": rng.random() < 0.85, "priority": rng.choice([0, 0, 1, 2]),
+             "autostart": rng.random() < 0.9, "max_retry": rng.choice([1, 2, 5])}
+        if rng.random() < 0.2:
+            w["singleton"] = True
+            w["np"] = rng.choice([0, 1])
+        if rng.random() < k["sch"]:
+            w["stop_children"] = True
+        if rng.random() < 0.3:
+            w["stop_signal"] = rng.choice([scenario.SIGINT, scenario.SIGQUIT, scenario.SIGUSR1])
+        if rng.random() < 0.1:
+            w["send_hup"] = True
+        if rng.random() < k["hooks"]:
+            hooks = {}
+            for h in rng.sample(HOOK_NAMES, rng.choice([1, 1, 2, 3])):
+                hooks[h] = (rng.choice(["true", "true", "false", "raise"]), rng.random() < 0.5)
+            w["hooks"] = hooks
+        ws.append(w)
+    names = [w["name"] for w in ws]
+    sc = {"seed": seed, "watchers": ws, "check_delay": rng.choice([0.3, 0.5, 1.0]),
+          "warmup_delay": rng.choice([0.0, 0.0, 0.1]),
+          "stubborn": [n for n in names if rng.random() < 0.3],
+          "obeys": [rng.random() < 0.8 for _ in range(5)], "instant_death": rng.random() < 0.15,
+          "script": []}
+    s = sc["script"]
+    if rng.random() < k["faults"]:
+        s.append({"op": "spawnfault", "kinds": [rng.choice(["OSError", "ValueError", None]) for _ in range(3)]})
+    s.append({"op": "boot"})
+    s.append({"op": "tick", "n": rng.randint(0, 8)})
+    cmds = ["incr", "decr", "set_np", "restart", "reload", "kill", "stop", "start", "status", "numprocesses",
+            "signal", "list"]
+    p = {"cmds": cmds}
+    for _ in range(rng.randint(2, k["steps"])):
+        r = rng.random()
+        w = rng.choice(names)
+        if r < 0.4:
+            q = scenario.gen_request(rng, w, p, names)
+            q["props"] = {kk: v for kk, v in q["props"].items() if kk not in ("children", "recursive")}
+            if "name" in q["props"]:
+                q["props"]["name"] = q["props"]["name"].lower()
+            if rng.random() < k["quit"]:
+                q = {"op": "req", "cmd": "quit", "props": {"waiting": rng.random() < 0.5}}
+            s.append(q)
+            if rng.random() < k["partial"]:
+                s[-1]["drain"] = False
+                s.append({"op": "run", "n": rng.randint(1, 3)})
+        elif r < 0.6:
+            d = {"op": "die", "sel": [w, rng.randint(0, 3)], "status": rng.choice(scenario.EXIT_STATUSES)}
+            if rng.random() < k["kdeath"]:
+                d["k"] = rng.randint(1, 8)
+            if rng.random() < 0.3:
+                d = {"op": "extkill", "sel": [w, rng.randint(0, 3)]}
+            s.append(d)
+        elif r < 0.6 + k["fork"] * 0.3:
+            s.append({"op": "fork", "sel": [w, rng.randint(0, 3)], "obeys": rng.random() < 0.7})
+        elif r < 0.7 and rng.random() < k["faults"]:
+            s.append({"op": "spawnfault", "kinds": [rng.choice(["OSError", "ValueError", None])
+                                                     for _ in range(rng.randint(1, 3))]})
+        elif r < 0.72 and rng.random() < k["dsig"] * 5:
+            s.append({"op": "dsig", "sig": rng.choice([scenario.SIGTERM, scenario.SIGINT, scenario.SIGQUIT])})
+        else:
+            s.append({"op": "tick", "n": rng.randint(1, 5)})
+        if rng.random() < k["probe"]:
+            s.append({"op": "probe"})
+    s.append({"op": "tick", "n": 12})
+    s.append({"op": "end", "xprobe": False, "passes": 1})
+    return sc
+
+
+PROFILES["conf_full"] = conf_full
